@@ -130,6 +130,27 @@ func batteryJobs() *pkgJob {
 			}
 			p.nOps["battery:assoc-mul-zero"] += 3
 		}
+		if w.bits == 64 {
+			// associative + and * whose first two operands are constants below
+			// 2^32 (C literals of type `unsigned int`) with a 64-bit partial result
+			// (fixes/C04-assoc-leading-constants.patch)
+			out := numT(wtys[3])
+			for k, body := range []string{
+				"    return 4294967295 + 4294967295 + args.x",
+				"    return 4294967295 * 4294967295 * args.x",
+				"    return 65536 * 65536 * 3 * args.x",
+				"    return 4000000000 + 4000000000 + 4000000000 + args.x + 5",
+				"    return args.x + 4294967295 + 4294967295",
+				"    return 4294967295 | 4294967296 | args.x",
+			} {
+				m := &method{name: fmt.Sprintf("ac%d", k), out: &out,
+					params: []slot{{name: "x", expr: "args.x", t: refT(w, bi(0), bi(1))}}}
+				m.body = []string{body}
+				p.methods = append(p.methods, m)
+				hist = append(hist, call{m: m, args: []*big.Int{bi(0)}}, call{m: m, args: []*big.Int{bi(1)}})
+			}
+			p.nOps["battery:assoc-leading-constants"] += 12
+		}
 		p.src = p.render()
 		j.progs = append(j.progs, p)
 		j.hists = append(j.hists, hist)
